@@ -52,6 +52,7 @@ func scenarios(tier string) []engine.Scenario {
 		}
 	}
 	sort.SliceStable(items, func(i, j int) bool { return items[i].cost > items[j].cost })
+	items = append(items, item{completenessScenario(), 0})
 	scs := make([]engine.Scenario, len(items))
 	for i := range items {
 		scs[i] = items[i].sc
@@ -101,6 +102,54 @@ func coverage() map[string]interface{} {
 		"unclassified_methods": unclassified}
 }
 
+// completenessScenario fails when an exported method of a tabled type is neither tabled nor waived with a
+// reason (a method added to the library must be classified before the check passes again), or when a
+// row names a method that no longer exists.
+func completenessScenario() engine.Scenario {
+	return engine.Scenario{Name: "method-table/completeness", Bound: -1, Fn: func(c *engine.Chooser) {
+		n := 0
+		for _, t := range ot.Targets() {
+			if t.Type == nil {
+				continue
+			}
+			seen := map[string]bool{}
+			for i := 0; i < t.Type.NumMethod(); i++ {
+				m := t.Type.Method(i).Name
+				seen[m] = true
+				n++
+				if !hasRow(t, m) && t.NotTabled[m] == "" && t.DefaultNotTabled == "" {
+					c.Fail("C09/method-table/unclassified:"+t.Name+"."+m, "exported method %s.%s has no row and no waiver in verif/lib/optable", t.Name, m)
+				}
+			}
+			for _, r := range t.Rows {
+				if !seen[r.Method] && !r.Func {
+					c.Fail("C09/method-table/stale-row:"+t.Name+"."+r.Method, "row %s.%s names a method that the type does not export", t.Name, r.Method)
+				}
+			}
+		}
+		c.Count(n)
+		c.Cover("method-table", "complete")
+		c.Outcome("method-table", n)
+		c.State("method-table", n)
+	}}
+}
+
+// residueFields lists, per target, the scratch fields the residue fill overwrites (audit trail for the
+// "scratch by field name" assumption).
+func residueFields(tier string) map[string]interface{} {
+	r := map[string]interface{}{}
+	for _, t := range ot.Targets() {
+		envs := envsFor(t, tier)
+		if len(envs) == 0 {
+			continue
+		}
+		paths, words := ot.FillResidue(t.New(ot.GetEnv(envs[0])), ot.FillPattern)
+		sort.Strings(paths)
+		r[t.Name] = map[string]interface{}{"env": envs[0], "fields": paths, "words": words}
+	}
+	return r
+}
+
 func hasRow(t *ot.Target, m string) bool {
 	for _, r := range t.Rows {
 		if r.Method == m {
@@ -136,7 +185,7 @@ func main() {
 		QuickBudget:    140 * time.Second,
 		ThoroughBudget: 25 * time.Minute,
 		Expect: func(tier string) []string {
-			e := []string{"alias=fresh", "alias=out==in", "alias=in==in", "alias=all-equal",
+			e := []string{"method-table=complete", "alias=fresh", "alias=out==in", "alias=in==in", "alias=all-equal",
 				"outshape=exact", "outshape=dirty-words", "outshape=dirty-meta", "outshape=larger-degree", "outshape=larger-level", "outshape=smaller-level",
 				"history=new", "history=residue", "history=after-call"}
 			for _, t := range ot.Targets() {
@@ -153,6 +202,10 @@ func main() {
 			}
 			return e
 		},
-		Extra: func(tier string) map[string]interface{} { return coverage() },
+		Extra: func(tier string) map[string]interface{} {
+			m := coverage()
+			m["residue_fill_fields"] = residueFields(tier)
+			return m
+		},
 	})
 }
